@@ -8,14 +8,14 @@ unset GOSUMDB
 mkdir -p .out evidence replays
 cp /repo/go.sum harness/go.sum
 cd harness
-for pkg in $(ls -d */ | tr -d / | grep -v -e '^vk$' -e '^probe$' -e '^cmd$' -e '^vrtsrc$' -e '^schedx$' -e '^schedsync$'); do
+for pkg in $(ls -d */ | tr -d / | grep -v -e '^vk$' -e '^probe$' -e '^cmd$' -e '^vrtsrc$' -e '^schedx$' -e '^schedsync$' -e '^schedp2p$'); do
   if ls $pkg/*_test.go >/dev/null 2>&1; then
     go test -c -tags verif -vet=off -o ../.out/$pkg.test ./$pkg
   fi
 done
 # schedule-explorer packages are built against an overlay of instrumented repository sources
 go build -o ../.out/instrument ./cmd/instrument
-for spec in "schedx:store" "schedsync:-trace setLocalHead sync"; do
+for spec in "schedx:store" "schedsync:-trace setLocalHead sync" "schedp2p:-sortmap peers p2p"; do
   pkg=${spec%%:*}; src=${spec#*:}
   if ls $pkg/*_test.go >/dev/null 2>&1; then
     rm -rf ../.out/overlay-$pkg
